@@ -137,19 +137,6 @@ def run_check(pid, tier, seed):
             else:
                 notes.append("known finding %s no longer reproduces" % fid)
 
-    # 5 ---- failing-input search when something broke
-    if broken and not violations:
-        found = None
-        try:
-            found = mod.search(tier, seed) if hasattr(mod, "search") else None
-        except Exception:
-            notes.append("search crashed: " + traceback.format_exc()[-1500:])
-        if found is not None:
-            violations.append((dict(found_by="search", broken=broken, **found), True))
-        else:
-            violations.append((dict(broken=broken, note="no failing input found by the search; the listed theorem / "
-                                    "correspondence stream no longer checks, so the property is no longer shown to hold"),
-                               False))
     # a violation that is a listed known finding is not reported again
     if hasattr(mod, "is_known"):
         kept = []
@@ -163,6 +150,32 @@ def run_check(pid, tier, seed):
                 kept.append((payload, found))
         violations = kept
 
+    # 5 ---- failing-input search when something broke
+    if broken and not violations:
+        found = None
+        try:
+            found = mod.search(tier, seed) if hasattr(mod, "search") else None
+        except Exception:
+            notes.append("search crashed: " + traceback.format_exc()[-1500:])
+        if found is not None:
+            violations.append((dict(found_by="search", broken=broken, **found), True))
+        else:
+            violations.append((dict(broken=broken, note="no failing input found by the search; the listed theorem / "
+                                    "correspondence stream no longer checks, so the property is no longer shown to hold"),
+                               False))
+    if hasattr(mod, "is_known"):
+        kept = []
+        for payload, found in violations:
+            fid = mod.is_known(payload, known) if found else None
+            if fid:
+                if not any(fid in l for l in kf_lines):
+                    kf_lines.append("KNOWN-FINDING: property=%s %s (re-found by this run)" % (pid, fid))
+                # the broken obligation itself is still unexplained by a NEW failing input
+                kept.append((dict(broken=broken, note="the only failing input found is the listed known finding %s; the "
+                                  "listed theorem / correspondence stream no longer checks" % fid), False))
+            else:
+                kept.append((payload, found))
+        violations = kept
     n_viol_total = len(violations)
     violations = violations[:1]      # one VIOLATION line per run; the count goes to the evidence
     # 6 ---- evidence + verdict
